@@ -16,21 +16,6 @@ structure PState where
   uuids : List Nat := []
   keys : List String := []
 
-def parseOldMap (tok : String) : Option (List (String × String)) :=
-  -- {hexk=hexv,…}
-  if !(tok.startsWith "{" && tok.endsWith "}") then none
-  else
-    let inner := ((tok.drop 1).dropEnd 1).toString
-    if inner.isEmpty then some []
-    else
-      (inner.splitOn ",").foldr (fun kv acc =>
-        match acc, kv.splitOn "=" with
-        | some l, [k, v] =>
-          match decStr k, decStr v with
-          | some k, some v => some ((k, v) :: l)
-          | _, _ => none
-        | _, _ => none) (some [])
-
 def parseLOp : List String → Option Op
   | ["create", u] => u.toNat?.map .create
   | ["undo"] => some .undoPoint
